@@ -303,6 +303,28 @@ def step_model(pid):
     return True, ""
 
 
+def coqchk(pid, timeout=3000):
+    """Independent re-check of the compiled property file and everything it depends on (thorough tier). Returns (ok, summary lines)."""
+    rc, o = sh(["coqchk", "-silent", "-o", "-Q", "theories", "SA", "SA.Props." + pid], cwd=os.path.join(VERIF, "coq"), timeout=timeout)
+    if rc != 0:
+        return False, ["coqchk failed: " + o[-800:]]
+    summ = []
+    bad = False
+    cur = None
+    for ln in o.splitlines():
+        t = ln.strip()
+        if t.startswith("* "):
+            cur = t[2:]
+            summ.append(cur)
+            if ":" in cur and not cur.rstrip().endswith("<none>") and not cur.startswith("Theory"):
+                bad = True
+        elif t and cur is not None and not t.startswith("CONTEXT") and not t.startswith("==="):
+            summ[-1] += " " + t
+            if not cur.startswith("Theory"):
+                bad = True
+    return (not bad), summ
+
+
 def model_bin(pid):
     return os.path.join(BUILD, "ocaml", pid, "model")
 
